@@ -51,6 +51,20 @@ def run_case(case):
             add("relex_exception", {"type": type(e).__name__}, {"msg": str(e)[:200]})
             continue
         rt = [(s.raw, fixfam.kind_of(s)) for s in toks if s.raw and not s.is_meta]
+
+        def merge_ws(seq):
+            # A run of plain whitespace may legitimately be several tokens in a templated tree (the
+            # lexer splits whitespace at template slice boundaries, before any fix); it is one token
+            # when the text is lexed on its own. Compare runs, not their internal boundaries.
+            out = []
+            for raw, kind in seq:
+                if kind == "ws" and out and out[-1][1] == "ws":
+                    out[-1] = (out[-1][0] + raw, "ws")
+                else:
+                    out.append((raw, kind))
+            return out
+
+        tt, rt = merge_ws(tt), merge_ws(rt)
         if tt != rt:
             i = next((i for i, (a, b) in enumerate(zip(tt, rt)) if a != b), min(len(tt), len(rt)))
             kind = "glued" if len(rt) < len(tt) else ("split" if len(rt) > len(tt) else "kind")
